@@ -99,7 +99,24 @@ def filed_under():
     return m
 
 
+def save_regression(replay_dir, prop, h, subject):
+    """The smallest replay found with the fix reverted becomes a committed regression case: it must stay
+    green on the repaired tree and turns red if the defect returns."""
+    import glob
+    import json
+    files = glob.glob(os.path.join(replay_dir, "*.json"))
+    if not files:
+        return
+    best = min(files, key=os.path.getsize)
+    doc = json.load(open(best))
+    dst = os.path.join(ROOT, "findings", prop, f"fixed_{h}.json")
+    os.makedirs(os.path.dirname(dst), exist_ok=True)
+    json.dump({"kind": "regression", "note": f"found with {h} reverted ({subject}); bucket {doc.get('bucket')}", "case": doc["case"]},
+              open(dst, "w"), indent=1)
+
+
 def do_reverts(args):
+    args = [a for a in args if not a.startswith("--")]
     filed = filed_under()
     rows = []
     for h, subject in fix_commits():
@@ -121,6 +138,8 @@ def do_reverts(args):
                 rc, buckets, out = run_check(repo, prop, os.path.join(d, "out"))
                 caught.append(rc == 1)
                 detail.append(f"{prop}:rc={rc}:{(buckets or ['-'])[0][:60]}")
+                if rc == 1 and "--save" in sys.argv:
+                    save_regression(os.path.join(d, "out", "replays", prop), prop, h, subject)
             status = "CAUGHT" if props and all(caught) else ("NOT-FILED" if not props else "MISSED")
             rows.append((h, status, subject[:70], " ".join(detail)))
         finally:
